@@ -24,6 +24,42 @@ def main() -> int:
     if [r[0] for r in p] != [-1, 0, 0, 1, 1] or [r[0] for r in n] != [0, 0, 1, 1, -1]:
         failures.append('hop.prev_next wrong')
 
+    # path reference on a grid small enough to do by hand
+    from .ref import pathref
+
+    E = {(0, 0, 0): 0.1, (1, 0, 0): 0.5, (2, 0, 0): 0.1}
+    d = pathref.dijkstra(E, (3, 1, 1), pathref.offsets(True), (0, 0, 0), 'sum', 1e7)
+    if abs(d[(2, 0, 0)] - 0.1) > 1e-12 or abs(d[(1, 0, 0)] - 0.3) > 1e-12:
+        failures.append(f'pathref.dijkstra wrong on 3x1x1 ring: {d}')
+    if pathref.bottleneck(E, (3, 1, 1), pathref.offsets(True), (0, 0, 0))[(2, 0, 0)] != 0.1:
+        failures.append('pathref.bottleneck wrong')
+    if len(pathref.offsets(True)) != 26 or len(pathref.offsets(False)) != 6:
+        failures.append('pathref.offsets')
+
+    # crash-state enumeration of a write log
+    from . import bfs, faults
+
+    log = [('open', '/x', 'wb'), ('write', '/x', b'abc'), ('close', '/x')]
+    if faults.crash_states(log) != [{}, {'/x': b''}, {'/x': b'a'}, {'/x': b'ab'}, {'/x': b'abc'}]:
+        failures.append('faults.crash_states wrong')
+
+    # BFS engine: a mod-5 counter with inc / double closes at 5 states; a seeded bad state must be reported
+    bad = []
+    st = bfs.explore(
+        build=lambda h: sum(h) % 5, enabled=lambda w, h: [1, 2], canon=lambda w: w,
+        check=lambda b, h: [('bad', 'state 3 reached')] if b(h) == 3 else [], max_depth=10,
+        on_violation=lambda k, h, d: bad.append(h))
+    if st.states != 5 or not st.fixpoint or not bad:
+        failures.append(f'bfs.explore toy model: states={st.states} fixpoint={st.fixpoint} violations={len(bad)}')
+
+    # the event oracle must flag a deliberately faulty stand-in (drops the last change of every atom)
+    def faulty_rows(trace):
+        rows = hop.change_log(trace)
+        return rows[:-1]
+
+    if not any(set(faulty_rows(t)) != set(hop.change_log(t)) for t in hop.all_traces(1, 2, 3)):
+        failures.append('event oracle cannot distinguish a faulty stand-in')
+
     for mod in ('geom',):
         try:
             m = __import__(f'gvmc.ref.{mod}', fromlist=['selftest'])
